@@ -61,6 +61,8 @@ def generate(tier, seed):
             c['rdtype'] = rng.choice(['float32', 'int'])
             c['req'] = [float(np.float32(x)) if c['rdtype'] == 'float32' else float(math.ceil(x)) for x in c['req']]
             c['below'] = any(x < lo for x in c['req'])
+        if kind == 'conv' and k % 5 == 2:
+            c['history'] = True
         if kind in ('sed', 'var'):
             c['sunit'] = rng.choice(['AU', 'AU', 'pc', 'cm'])            # unit in which the SED stores its apertures
             c['both'] = nap > 1 and rng.random() < 0.5                  # the other interpolation method is called on the same SED object first
@@ -102,6 +104,17 @@ def impl(case):
         req = (np.array(case['req']) / LEN[str(ru)]) * ru
         if case.get('rdtype'):
             req = u.Quantity(np.array(case['req']).astype({'float32': np.float32, 'int': int}[case['rdtype']]), ru, dtype={'float32': np.float32, 'int': int}[case['rdtype']])
+        if case.get('history') and len(aps) > 1:
+            # the same object held another table before (rows reversed, three times brighter) and was interpolated in that state;
+            # fluxes and errors were then assigned anew (the apertures were not)
+            c.flux = flux[::-1] * 3.0 * u.mJy
+            c.error = flux[::-1] * 0.5 * u.mJy
+            try:
+                c.interpolate((np.array([float(aps[0]), float(aps[-1])]) / LEN[case['tunit']]) * tu)
+            except Exception:
+                pass
+            c.flux = flux * u.mJy
+            c.error = flux * 0.25 * u.mJy
         r = c.interpolate(req)
         out = dict(flux=[[float(x) for x in row] for row in r.flux.to(u.mJy).value], error=[[float(x) for x in row] for row in r.error.to(u.mJy).value],
                    names=[str(x) for x in r.model_names], wav=float(r.central_wavelength.to(u.micron).value),
